@@ -12,7 +12,7 @@ class C07(EngineProp):
                   '-on_next*-> active -terminal-> done, idle -future result/error-> done; consequences proved without the automaton: c07_nothing_after_terminal, c07_on_subscribe_first, '
                   'c07_on_subscribe_once, c07_at_most_one_terminal, c07_cancelled_future_not_resolved, c07_pending_future_resolved_on_loss. Kernel-checked by induction over runs with the '
                   'invariant Rel (phase vs. engine state) preserved by every entry point (step_good). The real endpoint is run on generated scripts and the model replayed on the observed '
-                  'entry-point sequence (event-level correspondence); the oracle checks the same grammar on the recorded application callbacks.')
+                  'entry-point sequence (event-level correspondence); the oracle checks the same grammar on the recorded application callbacks, and on the signals the library\'s own stream sources (generator, async generator, Rx 3 / ReactiveX 4 publishers; completing, flagged, failing) send to their subscriber.')
     level_note = 'Trusted: Lean kernel + standard axioms; the order in which asyncio runs entry points is observed, not modelled; application objects are recorders.'
     design_ref = '§5 C07'
     rule = ('scripts of 6..30 groups of 1..3 stimuli (local API calls, application publisher/future signals, protocol-legal peer frames incl. in-flight frames after a local '
@@ -20,7 +20,75 @@ class C07(EngineProp):
             'is logged in execution order and replayed on the Lean engine model; non-trivial = at least 4 entry points and one stream object; distinct = distinct entry-point sequence')
     assumptions = ['the peer is protocol-legal and the application obeys reactive-streams (no signal after its own terminal)']
 
+    # -- the library's own publishers drive a subscriber too (the handler's StreamSubscriber, or any subscriber attached to them) ----------
+    def cases(self, rng, tier):
+        from harness import sources
+        out = super().cases(rng, tier)
+        for _ in range(400 if tier == 'quick' else 8000):
+            steps = []
+            for _ in range(rng.randint(1, 4)):
+                steps.append(['r', rng.choice([1, 2, 3, 7, 20])])
+                steps.append(rng.choice([['t', 1], ['t', 2], ['q'], ['t', 1]]))
+            steps.append(['q'])
+            kind = rng.choice(sources.KINDS)
+            count = rng.choice([0, 1, 2, 3, 5, 8])
+            out.append({'mode': 'source', 'role': 'server', 'profile': 'source', 'kind': kind, 'count': count,
+                        'flagged': rng.random() < 0.4 and kind in ('gen', 'agen') and count > 0, 'failing': rng.random() < 0.5, 'steps': steps})
+        return out
+
+    def run_impl(self, case):
+        if case.get('mode') == 'source':
+            from harness import detloop, sources
+            return detloop.run(sources.drive, case)
+        return super().run_impl(case)
+
+    def model_lines(self, case, obs):
+        return [] if case.get('mode') == 'source' else super().model_lines(case, obs)
+
+    def compare(self, case, obs, answers):
+        return None if case.get('mode') == 'source' else super().compare(case, obs, answers)
+
+    def nontrivial(self, case, obs):
+        if case.get('mode') == 'source':
+            import json
+            return json.dumps(case, sort_keys=True) if obs['events'] else None
+        return super().nontrivial(case, obs)
+
+    def stats(self, case, obs):
+        if case.get('mode') == 'source':
+            yield 'mode=source'
+            yield 'kind=' + case['kind']
+            return
+        yield from super().stats(case, obs)
+
+    def shrink_candidates(self, case):
+        if case.get('mode') == 'source':
+            st = case['steps']
+            for i in range(len(st) - 1):
+                yield dict(case, steps=st[:i] + st[i + 1:])
+            return
+        yield from super().shrink_candidates(case)
+
+    def explicit(self, case, obs):
+        return case if case.get('mode') == 'source' else super().explicit(case, obs)
+
     def oracle(self, case, obs):
+        if case.get('mode') == 'source':
+            fails = []
+            term = None
+            term_credit = None
+            for k, e in enumerate(obs['events']):
+                name = e[0]
+                if term is not None and e[3] != term_credit:
+                    break      # the subscriber asked for more after the terminal signal: whatever that provokes is not the library's doing
+                if term is not None:
+                    fails.append({'signature': 'source-signal-after-terminal:' + case['kind'],
+                                  'what': 'the %s source signalled %s after its terminal signal (%s): %s' % (case['kind'], name, term, [x[0] + (':c' if x[0] == 'next' and x[2] else '') for x in obs['events']])})
+                    break
+                if name in ('complete', 'error') or (name == 'next' and e[2]):
+                    term = name
+                    term_credit = e[3]
+            return fails
         fails = []
         seen = {}
         for i, m, t in flat(obs):
